@@ -100,6 +100,10 @@ class PublishRules(Rule):
             if not (c.profile & PUBB):
                 continue
             outstanding = any(r.pending and r.tx for r in s.reqs if r.kind == "publish" and r.qos)
+            if c.state == "connecting" and s.fifo[0].ci != c.ci:
+                # messages left behind by an earlier connection wait for CONNACK (C12: nothing
+                # carried over is written before it), and FIFO order keeps later ones behind them
+                continue
             if not outstanding:
                 L.probe("stranded")
                 L.violate("C10", "F4", "stranded:%s" % c.state,
